@@ -219,11 +219,12 @@ type engineResult struct {
 	InTree   string   `json:"in_tree"`
 	// the same patch and file through the public API (patch.Parse + File.Apply); Out/OutTree/OutImps
 	// are taken from it, the hook run supplies the per-change steps and is cross-checked (HookOut)
-	APIErr  string `json:"api_err"`
+	APIErr string `json:"api_err"`
 	// where the metavariable table engine.compileMeta built differs from the declarations of the change
-	MetaDiff []string `json:"meta_diff"`
-	HookOut []byte `json:"hook_out"`
-	HookErr string `json:"hook_err"`
+	MetaDiff  []string `json:"meta_diff"`
+	HookOut   []byte   `json:"hook_out"`
+	HookErr   string   `json:"hook_err"`
+	HookPanic string   `json:"hook_panic"`
 }
 
 // side of a change: *pgo.File through reflection
@@ -388,7 +389,16 @@ func runEngineCase(c engineCase) (res engineResult) {
 		res.LoadErr = err.Error()
 		return res
 	}
-	tr := patch.VerifRun(fs2, []*patch.VerifProgram{vp2}, c.File.Name, c.File.Src, false)
+	// the step-by-step run has no recover of its own (Apply has): a panic in it is recorded, not fatal
+	tr := func() (t *patch.VerifTrace) {
+		defer func() {
+			if r := recover(); r != nil {
+				t = &patch.VerifTrace{FormatErr: fmt.Sprintf("internal error: %v", r)}
+				res.HookPanic = fmt.Sprintf("%v", r)
+			}
+		}()
+		return patch.VerifRun(fs2, []*patch.VerifProgram{vp2}, c.File.Name, c.File.Src, false)
+	}()
 	res.Steps = convSteps(tr.Steps)
 	res.HookOut, res.HookErr = tr.Processed, tr.FormatErr+tr.ProcErr
 	// the public API on the same input
